@@ -31,6 +31,27 @@ Qed.
 Lemma inv_and_in : forall ps st p, inv_and ps st = true -> In p ps -> p st = true.
 Proof. unfold inv_and; intros ps st p H Hin. rewrite forallb_forall in H. apply H, Hin. Qed.
 
+(* one exploration serves every weaker invariant: a computed check of p gives the check of any q
+   that p implies state by state (same system, same explored set) *)
+Lemma scheck_weaken :
+  forall d (p q : state -> bool), (forall st, p st = true -> q st = true) ->
+    scheck d p = true -> scheck d q = true.
+Proof.
+  intros d p q Hpq H. unfold scheck, check in *.
+  destruct (explore state_beq key (s_init d) (s_next d) BIGFUEL) as [R|]; [|discriminate].
+  rewrite forallb_forall in *. intros x Hx. apply Hpq, H, Hx.
+Qed.
+
+(* a bundle implies each of its members, and any bundle made of members of it *)
+Lemma inv_and_member : forall ps p, In p ps -> forall st, inv_and ps st = true -> p st = true.
+Proof. intros ps p Hin st H. eapply inv_and_in; eassumption. Qed.
+Lemma inv_and_subset :
+  forall ps qs, (forall q, In q qs -> In q ps) -> forall st, inv_and ps st = true -> inv_and qs st = true.
+Proof.
+  intros ps qs Hsub st H. unfold inv_and. rewrite forallb_forall. intros q Hq.
+  eapply inv_and_in; [exact H | apply Hsub, Hq].
+Qed.
+
 (* a labelled witness: the path computed by the breadth-first search, re-validated *)
 Definition witness (d : sysdef) (inv : state -> bool) (labels : list label) : Prop :=
   exists s0 tr, srefutes d inv s0 tr = true /\ map fst tr = labels.
